@@ -398,7 +398,8 @@ def run(res):
         res.case(("multidir", cfg.key(), tuple(owner), tuple(order)))
         res.count("multidir")
         try:
-            rd = digital_rf.DigitalRFReader([common.path_form(t) for t in order])
+            tops_arg = [common.path_form(t) for t in order]
+            rd = digital_rf.DigitalRFReader(tuple(tops_arg) if i % 2 else tops_arg)
             b = rd.get_bounds("ch")
         except Exception as e:  # noqa
             res.violation("multidir-reader-fails", "a reader over several top-level directories fails (one of them holds the channel "
